@@ -53,9 +53,11 @@ def Tok.isObjOrNil : Tok → Bool | .obj _ => true | .nil => true | _ => false
     H heap Tuple, W a Thread object (not `current(Thread)`: `new(Thread)`, never started).  (The op-file letters U / F are T / E constructed with Ref keys.) -/
 inductive Kind where
   | P | M | R | B | A | L | T | E | H | W
+  | Y      -- a Type made at run time: `new(Type, name, size, instances…)`, an ordinary registered object (a leaf for the marker)
+  | Q      -- an instance of a run-time Type (one word slot): refers to its Type through its header only (`MObj.ty`)
 deriving Repr, Inhabited, DecidableEq
 
-def Kind.isWords : Kind → Bool | .P | .M | .R | .B => true | _ => false
+def Kind.isWords : Kind → Bool | .P | .M | .R | .B | .Q => true | _ => false
 def Kind.isSeq : Kind → Bool | .A | .L | .H => true | _ => false
 def Kind.isArr : Kind → Bool | .A | .L => true | _ => false
 def Kind.isMap : Kind → Bool | .T | .E => true | _ => false
@@ -84,6 +86,7 @@ structure MObj where
   kt : Ety := .R          -- CURRENT key type (T/E); redefined by `assign`
   vt : Ety := .R          -- CURRENT element (A/L) or value (T/E) type; redefined by `assign`
   raw : Bool := false     -- allocated with `new_raw`: never registered with the collector
+  ty : Option Nat := none -- Q: the run-time Type object the header's type pointer leads to (`Cello.Heap.TyMap`)
 deriving Repr, Inhabited
 
 def MObj.refKeys (o : MObj) : Bool := o.kind.isMap && o.kt == .R
@@ -156,6 +159,8 @@ def toObj (id : Nat) (o : MObj) : Obj :=
   | .E => .cont "Tree" (mapElems o.kt.name o.vt.name o.kvs)
   | .H => .tup "Tuple" (o.el.toList.map tokWord)
   | .W => .thr "Thread" (.cont "Table" (mapElems o.kt.name o.vt.name o.kvs))     -- `new(Thread)`: tls = Table(String, Ref)
+  | .Y => .raw "Type" [0]                                                        -- a leaf type: `GC_Recurse` returns at once
+  | .Q => .raw "Probe" ([id, canaryOf id] ++ o.el.toList.map tokWord)              -- the header (and its type pointer) lies in front of these words
 
 mutual
 /-- structural equality of representations (for the driver's cross-check of the re-typing ops) -/
@@ -183,6 +188,21 @@ def MState.heap (st : MState) : Heap :=
   Heap.ofHashMap hm
     (match st.minId with | some i => addrOf i | none => 2 ^ 64 - 1)
     (match st.maxId with | some i => addrOf i | none => 0)
+
+/-- the header edges of the current state (`Cello.Heap.TyMap`): instance ↦ its run-time Type object -/
+def MState.tyMap (st : MState) : TyMap := fun a =>
+  (idOfAddr a).bind fun id => (st.objs[id]?).bind fun o => if o.raw then none else o.ty.map addrOf
+
+/-- `Cello.Heap.typesAnchored` on the current state for a collection with these root words: the Type of every registered instance of a run-time
+    type is root-registered or reachable from the roots (outside: known finding KF-C01-type-outlived; the op is refused).  `rootsOnly`: every
+    such Type is root-registered (collections inside container operations). -/
+def MState.typesAnchored (st : MState) (words : List Word) (rootsOnly : Bool) : Bool :=
+  if !st.objs.any (fun _ o => o.ty.isSome) then true
+  else if rootsOnly then
+    st.objs.all fun _ o => o.raw || match o.ty with
+      | none => true
+      | some t => match st.objs[t]? with | some ot => ot.root | none => false
+  else Cello.Heap.typesAnchored hashSet Cfg.current st.heap st.tyMap (threadObj st) words
 
 def MState.usable (st : MState) (id : Nat) : Bool := st.objs.contains id
 def MState.owned (st : MState) (id : Nat) : Bool :=
@@ -251,7 +271,7 @@ def kindOfLetter (ks : String) : Option (Kind × Ety × Ety) :=
   | "P" => some (.P, .R, .R) | "M" => some (.M, .R, .R) | "R" => some (.R, .R, .R) | "B" => some (.B, .R, .R)
   | "A" => some (.A, .R, .R) | "L" => some (.L, .R, .R)
   | "T" => some (.T, .I, .R) | "U" => some (.T, .R, .R) | "E" => some (.E, .I, .R) | "F" => some (.E, .R, .R)
-  | "H" => some (.H, .R, .R) | "W" => some (.W, .S, .R) | _ => none
+  | "H" => some (.H, .R, .R) | "W" => some (.W, .S, .R) | "Y" => some (.Y, .R, .R) | "Q" => some (.Q, .R, .R) | _ => none
 
 def parseKind (s : String) : Option ((Kind × Ety × Ety) × Bool) :=
   let (ks, rf) := if s.length = 2 ∧ s.back = '!' then ((s.take 1).toString, true) else (s, false)
@@ -638,7 +658,19 @@ def MState.step (st : MState) (w : List String) : MState × List String :=
           | some t =>
             match st.objs[t]? with
             | some ot =>
-              if st.owned t || st.ghost.contains t || ot.kind = .B || ot.root || st.hasIncoming t slot then bad st else go 1 (some t)
+              if st.owned t || st.ghost.contains t || ot.kind = .B || ot.kind = .Y || ot.kind = .Q || ot.root || st.hasIncoming t slot then bad st else go 1 (some t)
+            | none => bad st
+          | none => bad st
+        | .Y => if arg != "-" || (st.full && !rf) then bad st else go 0 none
+        | .Q =>
+          match (parseLong arg).bind natOf with
+          | some t =>
+            match st.objs[t]? with
+            | some ot =>
+              if rf || ot.kind != .Y then bad st else
+              let (st', live) := st.doNew id kte 1 rf none slot
+              let st' := { st' with objs := st'.objs.modify id (fun o => { o with ty := some t }) }
+              (st', [if st.full then s!"O new {id} live={setText live}" else s!"O new {id}"])
             | none => bad st
           | none => bad st
         | _ =>
@@ -671,7 +703,7 @@ def MState.step (st : MState) (w : List String) : MState × List String :=
       match st.objs[id]? with
       | some o =>
         if !st.tokOk t then bad st
-        else if !(o.kind = .P ∨ o.kind = .M ∨ o.kind = .R) ∨ slot < 0 ∨ slot ≥ (o.k : Int) then bad st
+        else if !(o.kind = .P ∨ o.kind = .M ∨ o.kind = .R ∨ o.kind = .Q) ∨ slot < 0 ∨ slot ≥ (o.k : Int) then bad st
         else if o.kind = .M ∧ (!t.isObjOrNil || st.rawTok t) then bad st
         else ({ st with objs := st.objs.modify id fun o => { o with el := o.el.setIfInBounds slot.toNat t } }, ["O ok"])
       | none => bad st
@@ -836,6 +868,7 @@ def MState.step (st : MState) (w : List String) : MState × List String :=
     match (parseLong ids).bind natOf with
     | some id =>
       if !st.usable id || st.hasIncoming id none || st.ghost.contains id || !st.stale.isEmpty then bad st
+      else if ((st.objs[id]?).any fun o => o.kind == .Y && (st.full || st.objs.any (fun _ x => x.ty == some id))) then bad st
       else
         let (st', n) := st.del id (st.objs.size + 1)
         (st', [s!"O del {n}"])
@@ -865,6 +898,7 @@ def MState.step (st : MState) (w : List String) : MState × List String :=
     let st := { st with started := true }
     let ts := toks.map parseTok
     if ts.any (fun t => match t with | some t => !st.tokOk t | none => true) then bad st else
+    if !st.typesAnchored (ts.filterMap (·.map tokWord)) false then bad st else
     st.exactCollect (ts.filterMap (·.map tokWord)) "x"
   | "xraise" :: ids :: toks =>
     -- a collection during which the Mark instance of ProbeM `id` throws: the mark phase is left after the marking event of `id`
@@ -878,6 +912,7 @@ def MState.step (st : MState) (w : List String) : MState × List String :=
         let ts := toks.map parseTok
         if o.kind != .M || ts.any (fun t => match t with | some t => !st.tokOk t | none => true) then bad st else
         let words := ts.filterMap (·.map tokWord)
+        if !st.typesAnchored words false then bad st else
         let started := if clearFirstNow then [] else st.stale.map addrOf
         let events := markEvents Cfg.current st.heap (threadObj st) words started
         match events.idxOf? (addrOf id) with
@@ -902,7 +937,7 @@ def MState.step (st : MState) (w : List String) : MState × List String :=
       if id ≥ maxObj || st.used.contains id then bad st else
       match st.objs[t]? with
       | some ot =>
-        if st.owned t || ot.kind = .B || ot.raw then bad st
+        if st.owned t || ot.kind = .B || ot.kind = .Y || ot.kind = .Q || ot.raw then bad st
         else
           let (st', _) := st.doNew id (.B, .R, .R) 1 false (some t) none
           (st', [s!"O new {id}"])
@@ -940,7 +975,7 @@ def MState.step (st : MState) (w : List String) : MState × List String :=
         | none => bad st
         | some o =>
           let safe := st.innerSafe q o k
-          if safe < 0 then bad st else
+          if safe < 0 || !st.typesAnchored [] true then bad st else
           let post := st.innerPost q o
           let stPost := { st with objs := st.objs.insert q.id post }
           if safe == 0 then (stPost, ["O xin ub"]) else
@@ -1021,6 +1056,17 @@ def MState.step (st : MState) (w : List String) : MState × List String :=
       else (st, [s!"O deepchild {n}"])
     | _, _ => bad st
   | ["danglechild", k] => if k = "H" || k = "M" then (st, [s!"O danglechild {k}"]) else bad st
+  | ["typechild", k] =>
+    -- the witness of KF-C01-type-outlived on the model: `typeHeap` (x on the stack, its run-time Type referenced by x's header only; `r`: the
+    -- Type root-registered; `s`: also held by a stack word), two collections of the typed history (`TState.run`)
+    if !(k = "-" || k = "r" || k = "s") then bad st else
+    let h : Heap := if k = "r" then (typeHeap.remove 4160).register 4160 ⟨.raw "Type" [0], true⟩ else typeHeap
+    let stack : List Word := if k = "s" then [4096, 4160] else [4096]
+    let s0 : TState := ⟨⟨h, .thr "Thread" (.cont "Table" []), stack, []⟩, typeTy⟩
+    let first := TState.run hashSet Cfg.current clearFirstNow [.op (.base .collect)] s0
+    let kept := match first with | some (s1, _) => (s1.g.heap.lookup 4160).isSome | none => false
+    let second := (TState.run hashSet Cfg.current clearFirstNow [.op (.base .collect), .op (.base .collect)] s0).isSome
+    (st, [s!"O typechild {k} type={if kept then "kept" else "released"} second={if second then "completed" else "failed"}"])
   | ["aliaschild", k] => if k = "A" || k = "L" then (st, [s!"O aliaschild {k}"]) else bad st
   | _ => bad st
 
